@@ -255,6 +255,22 @@ class LenEv:
                 base = self.ev(e.func.value, env)
                 if isinstance(base, (Str, Opaque)):
                     return Bytes({("utf8", self.text(e.func.value, env) if not isinstance(base, Str) or True else base.text): 1})
+            if attr == "join" and len(e.args) == 1 and isinstance(e.args[0], (ast.GeneratorExp, ast.ListComp)) and len(e.args[0].generators) == 1 and not e.args[0].generators[0].ifs and isinstance(e.args[0].generators[0].target, ast.Name):
+                sep = self.ev(e.func.value, env)
+                if isinstance(sep, Bytes) and not sep.length:
+                    # b"".join(f(x) for x in coll): the per-element lengths add up
+                    g = e.args[0].generators[0]
+                    coll = self.ev(g.iter, env)
+                    if isinstance(coll, (Coll, Opaque)):
+                        env2 = dict(env)
+                        env2[g.target.id] = Str("_x")
+                        ren = dict(env.get("__rename__", {}))
+                        ren[g.target.id] = "_x"
+                        env2["__rename__"] = ren
+                        inner = self.ev(e.args[0].elt, env2)
+                        if isinstance(inner, Bytes):
+                            return Bytes(self.sum_over(coll.text, inner.length))
+                    raise LenUnsupported("bytes join over something that is not a per-element byte string")
             if attr == "join":
                 return Str(self.text(e, env))
             st = self.repo.try_fold(self.module, e.func.value)
